@@ -35,6 +35,8 @@ func main() {
 	replayInproc := flag.String("replay-inproc", "", "replay file, executed in this process (internal)")
 	skipFlag := flag.String("skip", "", "runs to skip (worker mode, internal)")
 	only := flag.Int("only", -1, "execute only this run (worker mode, internal)")
+	minimise := flag.String("minimise", "", "plan file with a violation to minimise (internal)")
+	minimiseOut := flag.String("minimise-out", "", "where to write the minimised plan (internal)")
 	dump := flag.Int("dump", -1, "with -prop: print the plan of run N of the batch and exit")
 	cpuprofile := flag.String("cpuprofile", "", "write a CPU profile (replay)")
 	flag.Parse()
@@ -67,6 +69,8 @@ func main() {
 	}
 
 	switch {
+	case *minimise != "":
+		os.Exit(engine.MinimiseFile(*minimise, *minimiseOut))
 	case *dump >= 0:
 		p := engine.Registry[*prop]
 		if p == nil {
